@@ -84,28 +84,42 @@ def fp_of(prob, **extra):
     return fp
 
 
-def enc_context(events, root, enc_flag):
+def enc_context(events, root, enc_flag, cc=None):
     """what the *input* says about parameter encryption, read off the events emitted so far (used to keep the
     fingerprints of the known findings F8 / F9 narrow): for the message being decoded when the run stopped,
     requested = the input asks for an encrypted first parameter (command: a session with decrypt; response: the
     flag it is decoded with, in a stream: a session of the preceding command with encrypt);
     response_sessions_encrypt = some session of that response carries encrypt"""
-    msgs = []  # (kind, [sessionAttributes values])
+    from .ref import values as V
+
+    def can(ccnum, which):
+        """the pinned parameter area of that code starts with a TPM2B (only then can it be encrypted at all)"""
+        name = V.cc_by_num().get(ccnum)
+        if name is None:
+            return None
+        f = V.S()[V.C()[name][which]]["fields"]
+        return bool(f) and isinstance(f[0][1], str) and f[0][1].startswith("TPM2B")
+
+    msgs = []  # [kind, [sessionAttributes values], command code]
     for e in events:
         if e[0] != "E":
             continue
         if e[1] == "" and e[3] == "..." and e[2] in ("Command", "Response"):
-            msgs.append((e[2], []))
+            msgs.append([e[2], [], None])
         elif e[1].endswith(".sessionAttributes") and isinstance(e[3], int) and msgs:
             msgs[-1][1].append(e[3])
+        elif e[1] == ".commandCode" and isinstance(e[3], int) and msgs:
+            msgs[-1][2] = e[3]
     if not msgs:
-        return {"requested": bool(enc_flag) if root == "Response" else False, "response_sessions_encrypt": False}
-    kind, attrs = msgs[-1]
+        return {"requested": bool(enc_flag) if root == "Response" else False, "response_sessions_encrypt": False, "area_can_encrypt": None}
+    kind, attrs, ccnum = msgs[-1]
     if kind == "Command":
-        return {"requested": any(a & 0x20 for a in attrs), "response_sessions_encrypt": False}
+        return {"requested": any(a & 0x20 for a in attrs), "response_sessions_encrypt": False, "area_can_encrypt": can(ccnum, "cp")}
     if root == "Response":
         req = bool(enc_flag)
+        ccnum = cc
     else:
         prev = next((m for m in reversed(msgs[:-1]) if m[0] == "Command"), None)
         req = bool(prev and any(a & 0x40 for a in prev[1]))
-    return {"requested": req, "response_sessions_encrypt": any(a & 0x40 for a in attrs)}
+        ccnum = prev[2] if prev else None
+    return {"requested": req, "response_sessions_encrypt": any(a & 0x40 for a in attrs), "area_can_encrypt": can(ccnum, "rp")}
